@@ -63,6 +63,7 @@ type Run struct {
 	From []string
 	// HailSteps: (scenarios on a hail model) the hails held before the first step and after every step
 	HailSteps []map[int]P
+	IDCalls   []idCall // (the same scenarios) the id lookups of the model's collection, by step
 }
 
 // stepChange: step Step (of thread T, inside its call Op) changed what the resources hold; Res is the result the
@@ -140,6 +141,10 @@ func runScheduled(ctl *k4.Controller, sc Scenario, prefix []int, choose func(ena
 		}
 		before := len(r.Results[pick])
 		w.clk.n.Store(int64(len(r.Sched)) + 1) // the instant the clock shows during this step
+		w.curK, w.curFrom = "", from
+		if cur[pick] < len(sc.Progs[pick]) {
+			w.curK = sc.Progs[pick][cur[pick]].K
+		}
 		st := ctl.Step(th)
 		for wait := 0; st == k4.Blocked && wait < 50; wait++ {
 			// a transient wait (allocator, logger, scheduler under load) is not a disabled step: look again
@@ -194,6 +199,9 @@ func runScheduled(ctl *k4.Controller, sc Scenario, prefix []int, choose func(ena
 		}
 		step++
 	}
+	w.mu.Lock()
+	r.IDCalls = append(r.IDCalls, w.idCalls...)
+	w.mu.Unlock()
 	r.Final, r.Stamps = w.contents()
 	r.RNG = w.rng.n
 	return r
@@ -1713,6 +1721,26 @@ func replay(f lib.Flags) int {
 	if sc.Init == nil {
 		sc.Init = map[string]P{}
 	}
+	if (in.Mode == "nested" || sc.Nested) && sc.usesTrait("h") {
+		sc.Nested = true
+		ns := runNestedSweep(sc)
+		fmt.Printf("replay nested sweep -> %s\n", ns.obs)
+		if f.Driver != "" && ns.v == nil && !ns.run.Stuck {
+			if ans, err := lib.RunOnce(f.Driver, []string{driverLine(sc, ns.progs, ns.sched)}); err == nil {
+				fmt.Println("model:", sweepAnswer(ans[0], ns.dels))
+			}
+		}
+		v := ns.v
+		if v == nil {
+			v = judge(ns.scx, ns.hist, ns.run.Final)
+		}
+		if v != nil {
+			fmt.Printf("STILL FAILS %s: %s (expected %s, observed %s)\n", v.sig+sc.family(), v.what, v.expected, v.observed)
+			return 1
+		}
+		fmt.Println("replay: property holds on this input now")
+		return 0
+	}
 	if in.Mode == "nested" || sc.Nested {
 		sc.Nested = true
 		r := runNested(sc)
@@ -1749,7 +1777,17 @@ func replay(f lib.Flags) int {
 		if sc.Pub {
 			line = pubDriverLine(sc, r)
 		}
-		if ans, err := lib.RunOnce(f.Driver, []string{line}); err == nil {
+		var dels map[int]map[int]bool
+		if sc.usesTrait("h") { // CreateHail and its sweep as the program Add ; Delete ; ... of the model
+			line = ""
+			if progs, sched, d, ok := sweepModel(sc, r); ok {
+				line, dels = driverLine(sc, progs, sched), d
+			}
+		}
+		if ans, err := lib.RunOnce(f.Driver, []string{line}); err == nil && line != "" {
+			if dels != nil {
+				ans[0] = sweepAnswer(ans[0], dels)
+			}
 			fmt.Println("model:", ans[0])
 		}
 	}
